@@ -490,11 +490,13 @@ def r13(e: Engine, rep: Report):
                   '_retry_later')
         return
 
+    bnames = common.bouncers(e)
+
     def ev(n):
         if n.kind not in ('call', 'call_enter'):
             return []
         nm = e.call_name(n)
-        if nm == '_perm_fail':
+        if common.bounce_event(e, n, bnames):
             return ['bounce']
         if nm == '_remove':
             return ['remove']
